@@ -130,8 +130,14 @@ Fixpoint insert_lbl (e : Z * list (Z * Z * Z)) (l : snapshot) : snapshot :=
               else x :: insert_lbl e t
   end.
 
+(* all line hashes registered by the code objects that carry label lbl, in registration order:
+   get_stats accumulates per label (merged_by_key), it does not overwrite *)
+Definition label_hashes (codes : list code) (hm : zmap (list Z)) (lbl : Z) : list Z :=
+  flat_map (fun ch => if Z.eqb (c_lbl (nth_code codes (fst ch))) lbl then snd ch else []) hm.
+
 Definition get_stats (codes : list code) (st : cstate) : snapshot :=
-  fold_left (fun acc ch => insert_lbl (c_lbl (nth_code codes (fst ch)), code_entries (cmap st) (snd ch)) acc) (chm st) [].
+  fold_left (fun acc ch => let lbl := c_lbl (nth_code codes (fst ch)) in
+                           insert_lbl (lbl, code_entries (cmap st) (label_hashes codes (chm st) lbl)) acc) (chm st) [].
 
 (* ---- one step -------------------------------------------------------------------------- *)
 Definition step (codes : list code) (tick : Z) (st : cstate) (o : op) : cstate :=
